@@ -1,4 +1,5 @@
 import PyemvGen.Mod.Common
+import PyemvProps.C02
 import PyemvGen.Mod.mac_mac3
 namespace Pyemv.ModRefines
 open Pyemv Pyemv.Gen
@@ -8,5 +9,12 @@ theorem ac_generate_arpc_2 (sk q csu : Bytes) (p : Option Bytes) : Gen.ac.genera
   simp only [mac_mac3, bind, Except.bind, pure, Except.pure]
   repeat (first | rfl | split)
   all_goals simp_all
+
+/-- **C02 (method 2) about the translated source** -/
+theorem source_generate_arpc_2 (sk arqc csu : Bytes) (pad : Option Bytes) (hsk : sk.length = 16) (hq : arqc.length = 8)
+    (hc : csu.length = 4) (hp : (pad.getD []).length ≤ 8) :
+    Gen.ac.generate_arpc_2 sk arqc csu pad =
+      .ok ((Spec.alg3 (sk.take 8) (sk.drop 8) (Spec.pad2 8 (arqc ++ csu ++ pad.getD []))).take 4) := by
+  rw [ac_generate_arpc_2]; exact C02.arpc2_eq_spec sk arqc csu pad hsk hq hc hp
 
 end Pyemv.ModRefines
